@@ -62,6 +62,7 @@ struct ScriptRule {
     text_codes: BTreeMap<String, f64>,// encode: (lower-cased) text -> code
     currency: String,                 // money: currency code (lower case)
     amount_field: String,             // money: field holding the count
+    decline_unknown_text: bool,       // encode: decline (None) when a text field is not one of text_codes
     calls: Rc<RefCell<Vec<Value>>>,
 }
 
@@ -96,6 +97,13 @@ impl RuleTrait for ScriptRule {
                 let mut total = 0.0;
                 for (name, weight) in self.weights.iter() {
                     let token = fields.get(name)?;
+                    if self.decline_unknown_text {
+                        if let TokenType::Text(text) = token {
+                            if !self.text_codes.contains_key(&text.to_lowercase()) {
+                                return None;
+                            }
+                        }
+                    }
                     total += weight * field_number(token, &self.text_codes)?;
                 }
                 Some(TokenType::Number(total, smartcalc::NumberType::Decimal))
@@ -264,6 +272,7 @@ impl Driver {
                     text_codes: fmap(&spec, "text_codes"),
                     currency: s(&spec, "currency"),
                     amount_field: s(&spec, "amount_field"),
+                    decline_unknown_text: spec.get("decline_unknown_text").and_then(|v| v.as_bool()).unwrap_or(false),
                     calls: self.calls.clone(),
                 });
                 json!({"ok": self.calcs.get_mut(&c).unwrap().add_rule(s(op, "lang"), strs(op, "patterns"), rule)})
